@@ -157,8 +157,35 @@ Qed.
 
 (* ... but an instance that never stored a label answers next label 1 before and 10000000001 after *)
 Lemma maxlabel_reload_refuted :
-  l_maxrepo l_fresh = 0 /\ l_maxrepo (l_load (l_down l_fresh)) = very_large_label.
+  l_maxrepo l_fresh_unrepaired = 0 /\ l_maxrepo (l_load (l_down l_fresh_unrepaired)) = very_large_label.
 Proof. split; reflexivity. Qed.
+
+(* with the initial maximum recorded at creation the new instance reloads as it was *)
+Lemma maxlabel_reload_fresh : l_maxrepo (l_load (l_down l_fresh)) = l_maxrepo l_fresh.
+Proof. reflexivity. Qed.
+
+(* ---- branch heads of the repaired code: a function of the repos, which a restart preserves ---- *)
+Lemma branch_head_restart C m img ops rid br : pinv m img = true -> synced m img -> run_accepted C m ops = true ->
+  let '(m', img') := prun_img C m img ops in
+  exists mr wr, recover C img' = Ok (mr, wr) /\ branch_head mr rid br = branch_head m' rid br.
+Proof.
+  intros Hp Hs Ha. pose proof (restart_refines_repos C m img ops Hp Hs Ha) as H.
+  destruct (prun_img C m img ops) as [m' img']. destruct H as (mr & wr & Hr & Hobs & _).
+  exists mr, wr. split; [exact Hr|]. unfold branch_head. unfold pobserve in Hobs. now rewrite Hobs.
+Qed.
+
+(* the repaired definition on the histories that refuted the old one *)
+Lemma branch_head_examples :
+  (let '(m, _) := r_run [PNewRepo 11; PCommit 1 1; PNewVersion 1 1 None 12; PNewVersion 1 1 (Some 7) 13;
+                         PCommit 1 2; PCommit 1 3; PMerge 1 [2; 3] 14] in
+   branch_head m 1 0 = Some 4 /\ branch_head m 1 7 = Some 3) /\
+  (let '(m, _) := r_run [PNewRepo 11; PCommit 1 1; PNewVersion 1 1 (Some 7) 12] in
+   branch_head m 1 0 = Some 1 /\ branch_head m 1 7 = Some 2) /\
+  (let '(m, _) := r_run [PNewRepo 11; PCommit 1 1; PNewVersion 1 1 None 12; PNewVersion 1 1 (Some 7) 13;
+                         PNewVersion 1 1 (Some 8) 14; PCommit 1 3; PCommit 1 4; PMerge 1 [3; 4] 15] in
+   branch_head m 1 0 = Some 5).
+Proof. vm_compute. repeat split. Qed.
+
 
 (* the same without any merge: a committed root whose only child is on another branch; the running
    server resolves master to the root, the restarted one does not resolve it at all *)
